@@ -335,6 +335,9 @@ def rule_sarif(ctx):
         arg0 = strip(ser[0]["args"][0]) if len(ser) == 1 else None
         ok = arg0 is not None and bool(pvs) and arg0["k"] == "Path" and arg0["path"] in env2 and render(strip(env2[arg0["path"]])).replace(" ", "") == "self.filter(%s)" % pvs[0]
         ctx.check(R, "SarifWriter::write_reports/serialises-the-filtered-set", ok, render(sw_["body"])[:160], site(WR, sw_))
+        # .. on every call: the file must reflect this run even when nothing passed the filters (no stale file)
+        cs_ = (conditions_to(sw_["body"], ser[0]) or []) if len(ser) == 1 else None
+        ctx.check(R, "SarifWriter::write_reports/serialises-unconditionally", cs_ is not None and not cs_, "serialize_reports is only reached under %s" % (facts_str(cs_) if cs_ else "?"), site(WR, sw_))
     # SARIF result fields come from the report
     ts = None
     for q, f in fns_in_file(SC):
@@ -428,6 +431,20 @@ def rule_region(ctx, R="C03.8"):
         ctx.check(R, "ReportLabel::to_sarif/" + m, ok, det, site(SC, fn))
     uri = env.get("file_uri")
     ctx.check(R, "ReportLabel::to_sarif/uri-of-the-label-file", uri is not None and render(strip(uri)).replace(" ", "").startswith("self.file_id.to_uri(files)"), render(uri) if uri else "?", site(SC, fn))
+
+
+def rule_label_passthrough(ctx, R):
+    """Report::add_primary / add_secondary store exactly the location and file id they were given"""
+    for nm, ctor in (("add_primary", "primary"), ("add_secondary", "secondary")):
+        f = find_fn(REP, nm, "Report")
+        if f is None:
+            ctx.missing(R, "Report::" + nm)
+            continue
+        pv = sgrep.params(f)
+        rebound = [n_["pat"]["name"] for n_ in walk(f["body"]) if n_["k"] == "Local" and n_["pat"].get("k") == "PIdent" and n_["pat"]["name"] in pv[:2]]
+        lab = [c for c in walk(f["body"]) if c["k"] == "Call" and c["func"]["k"] == "Path" and c["func"]["path"].endswith("ReportLabel::" + ctor)]
+        ok = len(pv) >= 2 and not rebound and len(lab) == 1 and [render(strip(a)) for a in lab[0]["args"]] == [pv[1], pv[0]]
+        ctx.check(R, "Report::%s/label-is-the-given-range-and-file" % nm, ok, "parameters %s rebound: %s; label built from %s" % (pv[:2], rebound, [render(a) for a in lab[0]["args"]] if lab else "?"), site(REP, f))
 
 
 def rule_filter_laws(ctx):
